@@ -32,6 +32,30 @@ def minimize_equiv(tier):
     return runs
 
 
+def names(tier, which):
+    """Names.tla: the naming schemes of result states (which = "group": minimize/to_deterministic, "pair": products)."""
+    base = 'SPECIFICATION Spec\nCONSTANTS PoolId = %d\n PairScheme = "%s"\n Sep = "%s"\n GroupScheme = "%s"\nINVARIANT %s\n' + DL
+    if which == "group":
+        runs = [dict(name="Names-group-loop", module="Names", timeout=300, cfg=base % (1, "pair", "; ", "loop", "GroupsDistinct"))]
+        if tier != "quick":
+            runs += [dict(name="Names-group-as-before-fix", module="Names", timeout=300, expect=("violates", "GroupsDistinct"),
+                          cfg=base % (1, "pair", "; ", "plain", "GroupsDistinct")),
+                     dict(name="Names-group-seeded-C02-r2-2", module="Names", timeout=300, expect=("violates", "GroupsDistinct"),
+                          cfg=base % (1, "pair", "; ", "count", "GroupsDistinct")),
+                     dict(name="Names-group-plain-names", module="Names", timeout=300,
+                          cfg=base % (3, "pair", "; ", "plain", "GroupsDistinct"))]
+        return runs
+    runs = [dict(name="Names-pair", module="Names", timeout=300, cfg=base % (2, "pair", "; ", "loop", "PairInjective"))]
+    if tier != "quick":
+        runs += [dict(name="Names-pair-as-before-fix", module="Names", timeout=300, expect=("violates", "PairInjective"),
+                      cfg=base % (2, "join", "; ", "loop", "PairInjective")),
+                 dict(name="Names-pair-seeded-C03-r2-1", module="Names", timeout=300, expect=("violates", "PairInjective"),
+                      cfg=base % (2, "join", ";", "loop", "PairInjective")),
+                 dict(name="Names-pair-plain-names", module="Names", timeout=300,
+                      cfg=base % (3, "join", "; ", "loop", "PairInjective"))]
+    return runs
+
+
 def gen_null_worklist(tier):
     mp = 3 if tier == "quick" else 3
     return [dict(name="GenNullWorklist", module="GenNullWorklist", timeout=1200,
